@@ -60,7 +60,7 @@ def cmd_import(wt, rid):
         print('imported', i)
 
 
-def cmd_import_fixed(wt, prop):
+def cmd_import_fixed(wt, prop, rnd=3):
     """repaired twins of the round-3 seeded changes: <worktree>/_seed/fixed{A,B}.diff (the clean-up of seeded/<prop>-E/-F with its
     slip repaired by an independent sub-agent) -> refactored/X<nn>-{E,F}/"""
     sd = os.path.join(wt, '_seed')
@@ -68,11 +68,11 @@ def cmd_import_fixed(wt, prop):
         fx = json.load(open(os.path.join(sd, 'fixed.json')))
     except Exception:
         fx = {}
-    for x, y in (('A', 'E'), ('B', 'F')):
+    for x, y in ((('A', 'E'), ('B', 'F')) if rnd == 3 else (('A', 'G'), ('B', 'H'))):
         pf = os.path.join(sd, 'fixed%s.diff' % x)
         if not os.path.exists(pf):
             continue
-        i = 'X%s-%s' % (prop[1:], y)
+        i = '%s%s-%s' % ('X' if rnd == 3 else 'W', prop[1:], y)
         d = os.path.join(ROOT, i)
         os.makedirs(d, exist_ok=True)
         shutil.copy(pf, os.path.join(d, 'patch.diff'))
@@ -143,7 +143,7 @@ def main():
     elif a[0] == 'import':
         cmd_import(a[1], a[2])
     elif a[0] == 'import-fixed':
-        cmd_import_fixed(a[1], a[2])
+        cmd_import_fixed(a[1], a[2], int(a[a.index('--round') + 1]) if '--round' in a else 3)
     elif a[0] == 'check':
         todo = ids() if a[1] == 'all' else ([i for i in ids() if i.startswith(a[1][:-1])] if a[1].endswith('*') else [a[1]])
         if len(todo) > 1 and '--suite' not in a:
